@@ -389,7 +389,8 @@ func decodeFloat32Key(dec *mapDecoder, raw string) (interface{}, error) {
 	if err != nil {
 		return nil, err
 	}
-	if ret > math.MaxFloat32 || ret < -math.MaxFloat32 {
+	/* range check after rounding to float32, as strconv.ParseFloat(s, 32) does */
+	if math.IsInf(float64(float32(ret)), 0) {
 		return nil, error_value(key, dec.mapType.Key.Pack())
 	}
 	return float32(ret), nil
